@@ -28,6 +28,8 @@ RD = {"_GET": "RSg GGet", "_POST": "RSg GPost", "_COOKIE": "RSg GCookie", "_SERV
       "clo_static": "RLocal",
       # the response body is a JSON object written with $w->json(): the engine's verdict on the decoded body
       "jsonbody": "RLocal",
+      # foreach over a process-wide static associative table that requests only read (parked inside the loop body)
+      "static_iter": "RLocal",
       # per-request data through methods of the request object (all / only / except / query / Cookie header / formValue /
       # postFormValue / fullUrl / bind into a DTO with property defaults)
       "rall": "RObj", "ronly": "RObj", "rexcept": "RObj", "rqueryp": "RObj", "rcookie": "RObj", "rformval": "RObj",
@@ -196,6 +198,16 @@ def gated_cases(rng, tier):
             cases.append({"segs": prog, "nreq": 2, "schedule": list(sch), "route": "annot", "mw": 1, "warmup": True, "gen": "annotation-2x2"})
         for sch in ([0, 0, 1, 1, 1, 2, 2, 2, 0], [0, 1, 2, 2, 1, 0, 0, 1, 2]):
             cases.append({"segs": prog, "nreq": 3, "schedule": sch, "route": "annot", "mw": 1, "warmup": True, "gen": "annotation-parked"})
+    # read-only iteration of a shared static table: strictly alternating, nested windows and 12 shuffled schedules
+    # (each request: entry + 3 parkings inside each of the two loops + 2 stage ends)
+    iprog = [["static_iter", "local"], ["static_iter", "rquery"]]
+    isch = [[0, 1] * 10, [0, 0, 1, 1, 1, 1, 1, 1, 1, 1, 1, 0], [0, 0, 0, 1, 1, 0, 0, 1, 1, 1]]
+    for _ in range(12):
+        x = [0] * 9 + [1] * 9
+        rng.shuffle(x)
+        isch.append(x)
+    for sch in isch:
+        cases.append({"segs": iprog, "nreq": 2, "schedule": sch, "route": "mux", "mw": 0, "gen": "static-table-iteration"})
     for sch in ([0, 0, 1, 1, 0, 1], [0, 1, 0, 1, 0, 1], [0, 0, 0, 1, 1, 1]):
         cases.append({"segs": [["local"], ["rquery", "jsonbody"]], "nreq": 2, "schedule": sch, "route": "mux", "mw": 1, "warmup": True, "gen": "json-body"})
     # a server with onFormat() registered and no onError(): the formatter wrapper is the outermost layer of every route.
@@ -285,6 +297,7 @@ def load_cases(rng, tier):
                       "rounds": 3 if tier == "quick" else 10, "route": "mux", "mw": n % 2, "onformat": n % 16 == 0, "warmup": True})
     # JSON bodies with string keys and values ($w->json): the encoder is Go code that no gate can stop inside, so this
     # is a matter of real parallelism: many requests in flight on many OS threads
+    cases.append({"segs": [["static_iter", "local"], ["static_iter", "rquery"]], "nreq": 32, "gomaxprocs": 8, "rounds": 3 if tier == "quick" else 10})
     jprog = [["local", "rquery"], ["rall", "jsonbody"]]
     for n, procs, rounds in ((32, 8, 4), (64, 16, 6)) if tier == "quick" else ((16, 4, 10), (32, 8, 20), (64, 16, 20), (128, 16, 20)):
         cases.append({"segs": jprog, "nreq": n, "gomaxprocs": procs, "rounds": rounds, "route": "mux", "mw": 0, "warmup": True})
